@@ -100,7 +100,8 @@ class C02(Prop):
     assumptions = ["real operators only (TTNO asserts real, DESIGN §3.7); local matrices from BasisSet.op_mat (C16's subject)",
                    "an identically vanishing operator is refused by the library (as by Mpo): counted as rejected",
                    "general_mctdh / t3ns create their virtual basis sets with one quantum-number component: used for qn_size 1 only",
-                   "tolerance 1e-9*scale (Hopcroft-Karp), 1e-7*scale (QR rank/entry cut 1e-10)",
+                   "tolerance 1e-9*scale (Hopcroft-Karp, scale = sum |c_k| prod ||local||), 1e-7*scale_qr (QR rank/entry cut 1e-10 relative to the "
+                   "largest factor of the table: scale_qr = max(scale, sum |c_k| * max_k prod ||local||))",
                    "label predicate for operators (sum of children labels + sigma_up - sigma_down = node label) only for "
                    "charge-definite operators"]
     known_matchers = {}
@@ -150,7 +151,9 @@ class C02(Prop):
                 return OpSum(o)
             return o
 
+        scales = {"qr": T.qr_scale(m, terms, bl, scale), "Hopcroft-Karp": scale}
         for algo in ALGOS:
+            scale = scales[algo]
             dense = []
             for tag, ctx in zip("ab", ctxs):
                 try:
